@@ -23,7 +23,7 @@ FRACS = [('inside, generic', np.array([(0.12345678, 0.5, 0.25), (0.33333333, 0.6
          ('on the cell boundary', np.array([(0.0, 0.0, 0.0), (1.0, 0.5, 0.0), (0.99996, 0.25, 1.0), (0.00004, 0.99999, 0.5), (0.5, 1.0, 0.5)]))]
 ELS = ['C', 'N', 'C', 'O', 'Zr']
 TUPS = {'bond': [(0, 1), (1, 2), (3, 2)], 'angle': [(0, 1, 2), (1, 2, 3), (3, 0, 4)], 'dihedral': [(0, 1, 2, 3), (4, 2, 1, 0), (1, 0, 3, 2)], 'improper': [(1, 0, 2, 3), (2, 1, 3, 4), (0, 3, 1, 2)]}
-TSHAPES_Q = [(0, 0, 0, 0), (1, 1, 1, 0), (3, 3, 3, 0), (1, 1, 1, 1), (3, 0, 3, 3), (0, 0, 0, 3), (2, 3, 0, 1)]
+TSHAPES_Q = [(0, 0, 0, 0), (1, 1, 1, 0), (3, 3, 3, 0), (1, 1, 1, 1), (3, 0, 3, 3), (0, 0, 0, 3), (2, 3, 0, 1), (0, 1, 0, 1)]
 TSHAPES = TSHAPES_Q + [t for t in itertools.product((0, 1, 3), repeat=4) if t not in TSHAPES_Q]      # thorough: every (bonds, angles, dihedrals, impropers) count in {0,1,3}^4
 XCOLS = [0, 1, 2]
 CHARGES = [[0, 0, 0, 0, 0], [-0.8234567, 12.5, 0.0, 1e-7, 2.0]]
